@@ -2300,6 +2300,9 @@ func (c *Conn) notify(ctx context.Context, level alert.Level, desc alert.Descrip
 		}
 	}
 
+	// Only protected records carry a connection ID (RFC 9146 Section 3).
+	encrypt := c.isHandshakeCompletedSuccessfully()
+
 	return c.writePackets(ctx, []*dtlsflight.Packet{
 		{
 			Record: &recordlayer.RecordLayer{
@@ -2312,8 +2315,8 @@ func (c *Conn) notify(ctx context.Context, level alert.Level, desc alert.Descrip
 					Description: desc,
 				},
 			},
-			ShouldWrapCID: c.state.ShouldWrapConnectionID(),
-			ShouldEncrypt: c.isHandshakeCompletedSuccessfully(),
+			ShouldWrapCID: encrypt && c.state.ShouldWrapConnectionID(),
+			ShouldEncrypt: encrypt,
 		},
 	})
 }
